@@ -4,7 +4,8 @@ from props.common import Rng, lattice, bspec, modes, number, hexspec, TEST_KEY, 
 RULE = ("length lattice L (0,1,2,63..65,127..129,1023..1025 and 1024k+{-1,0,1} for k in "
         "2,3,4,5,7,8,9,15,16,17,31,32,33,63,64,65,100,127,128,129) x content patterns x three modes (several keys, "
         "contexts incl. empty / non-ASCII / longer than a chunk) x every SIMD level forced through the hook; plus "
-        "random lengths. Non-trivial = distinct case whose input is longer than one chunk (tree code path).")
+        "random lengths; derive_key / new_derive_key called repeatedly through one reused context buffer (results must depend "
+        "on the context value only). Non-trivial = distinct case whose input is longer than one chunk (tree code path).")
 MODELLED = ["SIMD kernels (assembly / intrinsics): replaced in the model by a platform record with PlatformOK; "
             "tied at kernel level by C05 and here end-to-end at every forced platform",
             "CV arrays are lists of 32-byte CVs (byte offsets are multiples of OUT_LEN in the source)"]
@@ -39,6 +40,13 @@ def gen_cases(seed, tier):
             hi = (1 << 20) if tier == "thorough" else (1 << 16)
             n = rng.below(hi) if rng.chance(0.5) else (1 << rng.range(0, hi.bit_length() - 1)) + rng.range(-2, 2)
             lines.append(f"H {rng.choice(ms)} {plat} oh:{bspec(rng, max(0, n))}")
+    # the functions are functions of their argument VALUES: one reused buffer holding successive context strings of
+    # the same length (same address, different bytes), of different lengths, longer than a chunk, and repeated values
+    from props.common import hexspec as _hx
+    ctxs = [b"tenant-0001", b"tenant-0002", b"tenant-0003", b"tenant-0002", b"x", b"y", b"", b"tenant-0001",
+            b"app v1 2024-01-01 session keys", b"app v2 2024-01-01 session keys", b"A" * 1100, b"A" * 1099 + b"B", b"A" * 1100]
+    for mat in ("hex/", "paint/0/3", "paint/7/1025", "prng/5/5000"):
+        lines.append("dkre %s %s" % (mat, " ".join(_hx(c) for c in ctxs)))
     if tier == "thorough":
         lines.append("H hash avx512 oh:paint/0/4194305")
         lines.append("H hash portable oh:prng/5/1048577")
